@@ -1,10 +1,13 @@
 package masks
 
 import (
+	"strings"
+
 	"github.com/mennanov/fmutils"
 	"google.golang.org/grpc/codes"
 	"google.golang.org/grpc/status"
 	"google.golang.org/protobuf/proto"
+	"google.golang.org/protobuf/reflect/protoreflect"
 	"google.golang.org/protobuf/types/known/fieldmaskpb"
 )
 
@@ -67,10 +70,35 @@ func (r *ResponseFilter) FilterClone(msg proto.Message) proto.Message {
 	return clone
 }
 
-// filterPaths returns the normalized paths of the configured field mask.
-// fmutils gives a child path precedence over its parent so ["a", "a.b"] would select only a.b.
-func (r *ResponseFilter) filterPaths(_ proto.Message) []string {
-	return normalizedPaths(r.fields)
+// filterPaths returns the paths of the configured field mask that can select fields of msg.
+// The paths are normalized: fmutils gives a child path precedence over its parent so ["a", "a.b"] would select only a.b.
+// Paths that can't be followed are dropped, they select nothing: fmutils panics if a path continues through a
+// populated scalar, map, or repeated scalar field. Validate reports these paths as invalid.
+func (r *ResponseFilter) filterPaths(msg proto.Message) []string {
+	var paths []string
+	for _, path := range normalizedPaths(r.fields) {
+		if canFollow(msg.ProtoReflect().Descriptor(), path) {
+			paths = append(paths, path)
+		}
+	}
+	return paths
+}
+
+// canFollow returns true if each segment of path names a field and only the last one names a non-message field.
+func canFollow(md protoreflect.MessageDescriptor, path string) bool {
+	for path != "" {
+		if md == nil {
+			return false // the previous segment was not a message
+		}
+		var name string
+		name, path, _ = strings.Cut(path, ".")
+		fd := md.Fields().ByName(protoreflect.Name(name))
+		if fd == nil || (fd.IsMap() && path != "") {
+			return false
+		}
+		md = fd.Message()
+	}
+	return true
 }
 
 type ResponseFilterOption func(*ResponseFilter)
